@@ -101,6 +101,18 @@ type named struct {
 
 func (n named) Name() string { return n.name }
 
+// guardLZ4 is the real lz4 compressor, except that Decode refuses inputs whose 4-byte prefix declares
+// more than 128 MiB: the real Decode would allocate that much up front (the harness must survive a
+// mutated prefix; no generated input reaches the guard on the unchanged code).
+type guardLZ4 struct{ lz4.LZ4Compressor }
+
+func (g guardLZ4) Decode(data []byte) ([]byte, error) {
+	if len(data) >= 4 && binary.BigEndian.Uint32(data) > 1<<27 {
+		return nil, fmt.Errorf("harness guard: lz4 prefix declares %d bytes", binary.BigEndian.Uint32(data))
+	}
+	return g.LZ4Compressor.Decode(data)
+}
+
 func compressor(name string) gocql.Compressor {
 	switch name {
 	case "none", "-":
@@ -108,7 +120,7 @@ func compressor(name string) gocql.Compressor {
 	case "snappy":
 		return gocql.SnappyCompressor{}
 	case "lz4":
-		return lz4.LZ4Compressor{}
+		return guardLZ4{}
 	}
 	return named{gocql.SnappyCompressor{}, name}
 }
@@ -391,7 +403,7 @@ func exec(op string) (res string) {
 		}
 		return "ok:" + canon(out)
 	case "lz4dec":
-		out, err := lz4.LZ4Compressor{}.Decode(expand(w[1]))
+		out, err := guardLZ4{}.Decode(expand(w[1]))
 		if err != nil {
 			return "err"
 		}
@@ -757,6 +769,9 @@ func main() {
 		bodyArg, _ := genBody(r, 70000)
 		body := expand(bodyArg)
 		data, _ := lz4.LZ4Compressor{}.Encode(body)
+		if len(data) >= 4 && binary.BigEndian.Uint32(data) > 1<<27 {
+			data[0], data[1] = 0, 0
+		}
 		mut := "valid"
 		switch r.Intn(10) {
 		case 0:
